@@ -202,6 +202,69 @@ def _run(case):
                     elif sel in _selectors_of(r):
                         fails.append(("marking-not-removed", "%s left %r marked" % (stage, sel)))
 
+    # ---- several existing paths in one call (one granular marking listing them; one marking-function call with a list) -----
+    sels_all = [mm.join(c) for c, _ in paths]
+    for g in case.get("groups", []):
+        if not sels_all:
+            break
+        first = g["idx"][0] % len(paths)
+        if g.get("siblings"):
+            parent = paths[first][0][:-1]
+            pool = [mm.join(c) for c, _ in paths if c[:-1] == parent or c[:len(parent) + 1][:-1] == parent and len(c) > len(parent)] or sels_all
+        else:
+            pool = sels_all
+        group = []
+        for k in g["idx"]:
+            s_ = pool[k % len(pool)]
+            if s_ not in group:
+                group.append(s_)
+        if len(group) < 2:
+            continue
+        if g["order"] == "sorted":
+            group = sorted(group)
+        elif g["order"] == "reversed":
+            group = sorted(group, reverse=True)
+        classes.append("group:%s%s" % (g["order"], ":siblings" if g.get("siblings") else ""))
+        if sorted(group) != [mm.join(c) for c, _ in paths if mm.join(c) in group]:
+            classes.append("group:text-order-differs-from-walk-order")
+        distinct.add(core.fingerprint([doc["type"], version, form, "group", sorted(mm.path_shape(mm.split(s_)) for s_ in group)]))
+
+        def group_refused(stage, exc):
+            if isinstance(exc, InvalidSelectorError) or _is_syntax_refusal(exc):
+                fails.append(("valid-selectors-refused-together", "%s refuses the selectors %r of %s %s (%s) given together although each addresses something: %s" % (
+                    stage, group, version, doc["type"], form, core.fmt_exc(exc))))
+            else:
+                other_exc(stage, group, exc)
+        if form == "object":
+            for how in ("parse", "kwargs"):
+                obj, exc = _construct(_with_marking(doc, group), version, how)
+                if exc is not None:
+                    group_refused("construction(%s)" % how, exc)
+                elif sorted(_selectors_of(obj)) != sorted(group):
+                    fails.append(("selector-lost", "construction(%s) accepted %r but the object carries %r" % (how, group, _selectors_of(obj))))
+        r, exc = core.guarded(markings.add_markings, head, M, list(group))
+        if exc is not None:
+            if not (isinstance(exc, TypeNotVersionableError) and doc["type"] == "file"):
+                group_refused("add_markings(%s)" % form, exc)
+        else:
+            if sorted(_selectors_of(r)) != sorted(group):
+                fails.append(("selector-lost", "add_markings accepted %r but the result carries %r" % (group, _selectors_of(r))))
+            for fn, args in (("is_marked", (r, M, list(group))), ("get_markings", (r, list(group))), ("remove_markings", (r, M, list(group))), ("clear_markings", (r, list(group)))):
+                _, exc = core.guarded(getattr(markings, fn), *args)
+                if exc is not None:
+                    group_refused("add_markings then %s(%s)" % (fn, form), exc)
+            # marked one selector at a time: the library merges the selectors into one granular marking
+            step = head
+            for s_ in group:
+                step, exc = core.guarded(markings.add_markings, step, M, [s_])
+                if exc is not None:
+                    group_refused("add_markings one selector at a time, at %r (%s)" % (s_, form), exc)
+                    break
+        for fn, args in (("is_marked", (head, None, list(group))), ("get_markings", (head, list(group)))):
+            _, exc = core.guarded(getattr(markings, fn), *args)
+            if exc is not None:
+                group_refused("%s(%s)" % (fn, form), exc)
+
     # ---- near misses ----------------------------------------------------------------------------------------------
     for spec in case["near"]:
         nm = mm.near_miss(doc, spec["kind"], spec["a"], spec["b"])
@@ -285,7 +348,9 @@ def a_case(draw):
     version = "2.1" if doc.get("spec_version") == "2.1" else "2.0"
     form = pick(draw, ["object", "dict"])
     near = draw(st.lists(near_spec, min_size=2, max_size=6))
-    return {"version": version, "form": form, "subject": doc, "near": near}
+    group = st.fixed_dictionaries({"idx": st.lists(st.integers(0, 400), min_size=2, max_size=6), "order": st.sampled_from(["given", "sorted", "reversed"]),
+                                   "siblings": st.booleans()})
+    return {"version": version, "form": form, "subject": doc, "near": near, "groups": draw(st.lists(group, min_size=1, max_size=4))}
 
 
 def run(ctx):
@@ -294,7 +359,9 @@ def run(ctx):
                 "hashes, kill-chain phases, custom nested dictionaries with mixed-case keys; 2.1 file SCOs with hashes (MD5, SHA-256 ...) and "
                 "ntfs / pebinary / archive extensions; 2.0 observed-data with an objects container; each as library object and as plain dict.  "
                 "For each subject every path of its JSON form is tried at construction (parse of the JSON text and class constructor) and in "
-                "the five marking functions, followed by queries on the marked result; 2-6 near-misses per subject out of 12 kinds (absent "
+                "the five marking functions, followed by queries on the marked result; 1-4 groups of 2-6 existing paths (any / sibling paths, in given, "
+                "sorted and reverse-sorted order) are given together in one granular marking and in one marking-function call, and added one at a "
+                "time; 2-6 near-misses per subject out of 12 kinds (absent "
                 "property / nested key, index = length or far beyond, key or index under a scalar, index on a dictionary, key on a list, "
                 "skipped index, misspelled component, character prefix / extension of the last component) are tried the same way.  "
                 "Non-trivial = path of depth >= 2 or addressing a falsy value / repeated element / upper-case key, or any near-miss; "
@@ -316,7 +383,8 @@ def run(ctx):
     core.run_given(ctx, a_case(), body, ctx.n(480, 2500), label="c08-subjects")
     if not ctx.violations and ctx.evaluations >= 300:
         need = ["path:" + f for f in mm.QUESTIONED + ("plain",)] + ["near:" + k for k in mm.NEAR_KINDS] + \
-               ["form:object", "form:dict", "version:2.0", "version:2.1", "type:file", "type:observed-data", "type:indicator"]
+               ["form:object", "form:dict", "version:2.0", "version:2.1", "type:file", "type:observed-data", "type:indicator",
+                "group:given", "group:sorted", "group:reversed", "group:sorted:siblings", "group:text-order-differs-from-walk-order"]
         core.health(ctx, need, share=0.005)
 
 
